@@ -7,22 +7,34 @@ import BareProofs.C10WsLemmas
 
 `BareProofs/C10.lean` proves that indentation does not matter *given* `SkipsLeadingBlanks parseExpr`, and trailing blanks
 for the statement kinds whose expression text does not reach the end of the line.  Here the hypothesis is discharged for
-the expression parser model of C02, and the remaining cases are closed, for **all** texts:
+the expression parser model of C02, and the remaining cases are closed, for **all** texts (no bound on length or nesting):
 
 * `parseExpr_fuel`                 more fuel than the text length does not change `_parse_binary_expression`
-* `parseExpr_leading_blanks`       `parseExpr (ws ++ s)` = `parseExpr s`, an error column `c ↦ if c = 1 then 1 else c + |ws|`
+* `parseExpr_leading_blanks`       `parseExpr (ws ++ s)` = `parseExpr s`; an error column `c ↦ if c = 1 then 1 else c + |ws|`
 * `parseExpr_skips_leading_blanks` hence `SkipsLeadingBlanks ExprParse.parseExpr`, and
-  `leading_ws_irrelevant_parseExpr` — `C10.leading_ws_irrelevant` without hypothesis
+  `leading_ws_irrelevant_parseExpr` / `_classify` — `C10.leading_ws_irrelevant` without hypothesis
 * `parseExpr_gap`                  one blank run outside string literals and bracketed names (`Gap`) replaced by another:
                                    same tree; same error text, column unchanged in front of the run and moved by the
                                    difference of the lengths behind it
 * `parseExpr_trailing_blanks`      `parseExpr (s ++ ws) = parseExpr s` (tree *and* error, column included)
-* `parseExpr_blank_stretch`        an inter-token blank may be stretched (or shrunk to one blank) without changing the tree
-* `trailing_ws_irrelevant`         trailing blanks after *every* statement of the cascade that carries an expression …
-* `continuation_break_irrelevant`  a line broken with a backslash at an inter-token blank classifies like the unbroken line
+* `shape_append_ws`, `trailing_ws_irrelevant`   trailing blanks after **every** statement kind of the cascade: the
+                                   classified line is *equal*; one exclusion — a line whose last non-blank character is
+                                   `=` (where the Python really differs: `a =` / `a = `)
+* `parseExpr_blank_stretch(_at)`   an inter-token blank may be stretched / shrunk without changing the tree; the position is
+                                   given by the inductive `Gap` or checked by the executable `topLevelAt` (`gap_of_topLevelAt`)
+* `classifyL_gap`, `shape_assign_replace`   the same through `classify`: for every statement kind if the statement pattern
+                                   captures the same groups around the blank run (a hypothesis), for assignments outright
+* `continuation_break_line`, `continuation_break_irrelevant(_assign)`   a line broken with a backslash at an inter-token
+                                   blank of its expression: the physical lines give the logical line joined by one blank,
+                                   and that line classifies like the unbroken one
 
 White space: the line scanners use `Text.isSpace`, the token scanners `ExprScan.isPySpace`; the two are the same function
 (`isPySpace_eq_isSpace`, by `rfl`: the 29 code points of `str.isspace`), so "blank" means the same on both sides.
+
+How: `BareProofs/C10WsLemmas.lean` — the parser looks at the text only through ten scanners; a relation on remaining
+texts that all scanners respect is respected by the parser (`parseUnary_rel`, induction on fuel); `Lead` and `GapR` are
+such relations (`lead_respects`, `gap_respects`); fuel is irrelevant beyond the text length (`parseBinary_more` with
+`C02.fuel_sufficient`), so texts of different lengths can be run at a common fuel.
 -/
 
 namespace C10
@@ -88,6 +100,15 @@ theorem parseExpr_leading_blanks (ws s : List Char) (h : Text.allSpace ws = true
   simp only [parseExpr, String.toList_ofList]
   exact parseExprL_leading_blanks ws s (blank_of_allSpace h)
 
+/-- a column behind the blanks moves by their number (here 4: blank, tab, U+3000, blank); column 1 stays -/
+example : parseExpr (String.ofList (" \t　 ".toList ++ "a b".toList)) =
+    mapCol (fun c => if c = 1 then 1 else c + 4) (parseExpr (String.ofList "a b".toList)) :=
+  parseExpr_leading_blanks " \t　 ".toList "a b".toList (by decide)
+example : parseExpr " \t　 a b" = .error ⟨"Syntax error", 6⟩ ∧ parseExpr "a b" = .error ⟨"Syntax error", 2⟩ := by
+  constructor <;> kernel_rfl
+example : parseExpr "   )" = .error ⟨"Syntax error", 1⟩ ∧ parseExpr ")" = .error ⟨"Syntax error", 1⟩ := by
+  constructor <;> kernel_rfl
+
 /-- **The hypothesis of `C10.leading_ws_irrelevant`, discharged** for the expression parser model of C02
 (`ExprParse.parseExpr`): with blanks (`Text.isSpace` = `ExprScan.isPySpace`) in front, the same tree or the same error
 text. -/
@@ -95,6 +116,15 @@ theorem parseExpr_skips_leading_blanks : SkipsLeadingBlanks ExprParse.parseExpr 
   intro ws s h
   rw [parseExpr_leading_blanks ws s h]
   exact EqUpToColumn_mapCol _ _
+
+section
+attribute [local irreducible] EqUpToColumn
+/-- (`EqUpToColumn` is made irreducible around the concrete examples only to keep the elaborator from *evaluating* the
+parser on the literal when it looks at the type) -/
+example : EqUpToColumn (parseExpr (String.ofList ("\t  ".toList ++ "ff(x, 'a  b')".toList)))
+    (parseExpr (String.ofList "ff(x, 'a  b')".toList)) :=
+  parseExpr_skips_leading_blanks "\t  ".toList "ff(x, 'a  b')".toList (by decide)
+end
 
 /-- **Indentation is irrelevant** for every line, for the classifier instantiated with the expression parser — no
 hypothesis left.  (Up to the error column; `leading_ws_irrelevant_stmt` and `parseExpr_leading_blanks` say exactly how
@@ -109,6 +139,16 @@ theorem leading_ws_irrelevant_classify (ws l : List Char) (h : Text.allSpace ws 
       (Scan.classify ExprParse.parseExpr (String.ofList l)) := by
   simp only [Scan.classify, String.toList_ofList]
   exact leading_ws_irrelevant_parseExpr ws l h
+
+section
+attribute [local irreducible] EqUpToColumn
+example : EqUpToColumn (Scan.classifyL parseExpr ("\t  ".toList ++ "ff(x, 'a  b')".toList))
+    (Scan.classifyL parseExpr "ff(x, 'a  b')".toList) :=
+  leading_ws_irrelevant_parseExpr "\t  ".toList "ff(x, 'a  b')".toList (by decide)
+example : EqUpToColumn (Scan.classify parseExpr (String.ofList ("\t  ".toList ++ "ff(x, 'a  b')".toList)))
+    (Scan.classify parseExpr (String.ofList "ff(x, 'a  b')".toList)) :=
+  leading_ws_irrelevant_classify "\t  ".toList "ff(x, 'a  b')".toList (by decide)
+end
 
 /-! ## one blank run replaced by another -/
 
@@ -171,6 +211,27 @@ theorem parseExpr_gap {ws ws' q cs cs' : List Char} (ok : GapOK ws ws' q) (h : G
         (parseExpr (String.ofList cs)) := by
   simp only [parseExpr, String.toList_ofList]
   exact parseExprL_gap ok h
+
+/-- a site by hand (three ordinary characters, then the site) … -/
+example : Gap " ".toList "   ".toList "b".toList "a + b".toList "a +   b".toList :=
+  .cons 'a' rfl (.cons ' ' rfl (.cons '+' rfl .site))
+/-- … and found by the executable test: offset 10 of `ff('a  b') + c` is outside the literal, offset 6 is inside it;
+the same for a bracketed name -/
+example : topLevelAt 14 10 "ff('a  b') + c".toList = true := by kernel_rfl
+example : topLevelAt 14 6 "ff('a  b') + c".toList = false := by kernel_rfl
+example : topLevelAt 9 6 "[a  b]  c".toList = true := by kernel_rfl
+example : topLevelAt 9 2 "[a  b]  c".toList = false := by kernel_rfl
+example := parseExpr_gap (ws := " ".toList) (ws' := " \t  ".toList) (q := "+ c".toList)
+    ⟨blank_of_allSpace (by decide), blank_of_allSpace (by decide), Or.inl ⟨by simp, by simp⟩⟩
+    (gap_of_topLevelAt _ _ _ 14 10 "ff('a  b') + c".toList "ff('a  b')".toList (by kernel_rfl) rfl rfl)
+/-- the conclusion on this instance, and that it fails inside the literal -/
+example : parseExpr "ff('a  b') \t  + c" = parseExpr "ff('a  b') + c" := by kernel_rfl
+example : parseExpr "ff('a  b') + c" ≠ parseExpr "ff('a b') + c" := by
+  have e1 : parseExpr "ff('a  b') + c" =
+      .ok (.binary .add (.function (.user "ff") [.string "a  b"]) (.variable (.user "c"))) := by kernel_rfl
+  have e2 : parseExpr "ff('a b') + c" =
+      .ok (.binary .add (.function (.user "ff") [.string "a b"]) (.variable (.user "c"))) := by kernel_rfl
+  rw [e1, e2]; intro h; simp at h
 
 /-! ## trailing blanks -/
 
@@ -240,6 +301,12 @@ theorem parseExpr_trailing_blanks (s ws : List Char) (h : Text.allSpace ws = tru
   simp only [parseExpr, String.toList_ofList]
   exact parseExprL_trailing_blanks s ws (blank_of_allSpace h)
 
+
+example : parseExpr (String.ofList ("a +".toList ++ " \t ".toList)) = parseExpr (String.ofList "a +".toList) :=
+  parseExpr_trailing_blanks "a +".toList " \t ".toList (by decide)
+example : parseExpr "a + \t " = .error ⟨"Syntax error", 4⟩ ∧ parseExpr "a +" = .error ⟨"Syntax error", 4⟩ := by
+  constructor <;> kernel_rfl
+
 end C10
 
 namespace C10
@@ -281,6 +348,21 @@ theorem trailing_ws_irrelevant (l ws : Chars) (h : allSpace ws = true) (hne : la
     | some p => rfl
   | exprStmt => simp only [addTrailS, parseExpr_trailing_blanks l ws h]
   | _ => rfl
+
+example : classifyL ExprParse.parseExpr ("  x = ff(1, 'a ')".toList ++ " \t".toList) =
+    classifyL ExprParse.parseExpr "  x = ff(1, 'a ')".toList :=
+  trailing_ws_irrelevant "  x = ff(1, 'a ')".toList " \t".toList (by decide) (by decide)
+example : classifyL ExprParse.parseExpr ("for v, i in arr :".toList ++ "  ".toList) =
+    classifyL ExprParse.parseExpr "for v, i in arr :".toList :=
+  trailing_ws_irrelevant _ _ (by decide) (by decide)
+example : classifyL ExprParse.parseExpr ("async function ff(a, b...) :".toList ++ "\t".toList) =
+    classifyL ExprParse.parseExpr "async function ff(a, b...) :".toList :=
+  trailing_ws_irrelevant _ _ (by decide) (by decide)
+/-- the excluded line: the hypothesis fails, and so does the conclusion (different statement kind, different column) -/
+example : lastNS "a =".toList = some '=' ∧
+    shape "a =".toList = .exprStmt ∧ shape "a = ".toList = .assign "a".toList 3 " ".toList := by decide
+example : classifyL ExprParse.parseExpr "a =".toList = .error ⟨"Syntax error", 2⟩ ∧
+    classifyL ExprParse.parseExpr "a = ".toList = .error ⟨"Syntax error", 4⟩ := by constructor <;> kernel_rfl
 
 /-! ## a blank run inside the expression of a statement -/
 
@@ -386,6 +468,10 @@ theorem shape_assign_replace {l name e : Chars} {off : Nat} (h : shape l = .assi
     unfold shape
     simp only [assign?_lstrip r3, shapeS_of_assign r3, Nat.sub_self, Shape.shift, Nat.add_zero]
 
+example : shape ("  x = ".toList ++ "g(2)  + 1".toList) = .assign "x".toList 6 "g(2)  + 1".toList :=
+  (shape_assign_replace (l := "  x = ff(1)".toList) (name := "x".toList) (e := "ff(1)".toList) (off := 6) (by decide)
+    (by decide) "g(2)  + 1".toList (by decide) (by simp)).2
+
 /-! ## line continuation -/
 
 /-- **Where the line is broken**: the physical lines `p \` and `q` — with any blanks before and after the backslash and
@@ -435,5 +521,104 @@ theorem continuation_break_line (i ix : Nat) (p q ws1 tr ind : Chars) (rest : Li
   have := (continuation_join i ix _ _ _ rest hA hc hB hBc).1
   rw [hj] at this; exact this
 
+
+example : loopL 0 ["x = ff(1, \\  ".toList, "\t 2)".toList] [] 0 = emit (0, "x = ff(1, 2)".toList) ([], none) :=
+  continuation_break_line 0 0 "x = ff(1,".toList "2)".toList " ".toList "  ".toList "\t ".toList []
+    (by decide) (by decide) (by decide) (by decide) (by decide) (by decide) (by decide) (by decide)
+
+/-! ## stretching an inter-token blank; line continuation -/
+
+/-- **An inter-token blank may be stretched or shrunk**: in `cs = a ++ ws ++ q` the non-empty blank run `ws` stands outside
+string literals and bracketed names (`Gap`: `a` is read as ordinary characters, complete string literals and complete
+bracketed names); replacing it by another non-empty blank run `ws'` does not change the tree; a rejected text stays
+rejected with the same error text (`parseExpr_gap` gives the column).  This is the step from a line to the same line broken
+by a backslash, where the two parts are stripped and joined by exactly one blank. -/
+theorem parseExpr_blank_stretch {ws ws' q cs cs' : Chars} (hws : allSpace ws = true) (hws' : allSpace ws' = true)
+    (hne : ws ≠ []) (hne' : ws' ≠ []) (h : Gap ws ws' q cs cs') :
+    (∀ e, ExprParse.parseExpr (String.ofList cs) = .ok e → ExprParse.parseExpr (String.ofList cs') = .ok e) ∧
+    EqUpToColumn (ExprParse.parseExpr (String.ofList cs')) (ExprParse.parseExpr (String.ofList cs)) := by
+  have ok : GapOK ws ws' q := ⟨blank_of_allSpace hws, blank_of_allSpace hws', Or.inl ⟨hne, hne'⟩⟩
+  rw [parseExpr_gap ok h]
+  exact ⟨fun e he => by rw [he]; rfl, EqUpToColumn_mapCol _ _⟩
+
+/-- the same with the position given by its offset and checked by the executable test `topLevelAt` -/
+theorem parseExpr_blank_stretch_at (a ws ws' q : Chars) (hws : allSpace ws = true) (hws' : allSpace ws' = true)
+    (hne : ws ≠ []) (hne' : ws' ≠ [])
+    (htop : topLevelAt (a ++ (ws ++ q)).length a.length (a ++ (ws ++ q)) = true) :
+    (∀ e, ExprParse.parseExpr (String.ofList (a ++ (ws ++ q))) = .ok e →
+      ExprParse.parseExpr (String.ofList (a ++ (ws' ++ q))) = .ok e) ∧
+    EqUpToColumn (ExprParse.parseExpr (String.ofList (a ++ (ws' ++ q))))
+      (ExprParse.parseExpr (String.ofList (a ++ (ws ++ q)))) :=
+  parseExpr_blank_stretch hws hws' hne hne' (gap_of_topLevelAt ws ws' q _ _ _ a htop rfl rfl)
+
+/-- one blank between `ff('a  b')` and `+` stretched to blank-tab-blank-blank: same tree (`ok` case) / same error text -/
+example := parseExpr_blank_stretch_at "ff('a  b')".toList " ".toList " \t  ".toList "+ c".toList (by decide) (by decide)
+  (by simp) (by simp) (by kernel_rfl)
+example := parseExpr_blank_stretch (ws := " ".toList) (ws' := "   ".toList) (q := "b".toList) (cs := "a + b".toList)
+  (cs' := "a +   b".toList) (by decide) (by decide) (by simp) (by simp) (.cons 'a' rfl (.cons ' ' rfl (.cons '+' rfl .site)))
+
+/-- **Breaking a line at an inter-token blank of its expression does not matter.**  The logical line `l = p ++ ws ++ q`
+(`ws` a non-empty blank run outside string literals and bracketed names of the expression of `l`) and the two physical
+lines `p ws1 \ tr` / `ind q` (any blanks `ws1`, `tr`, any indentation `ind`): the line loop yields the one logical line
+`p ++ " " ++ q` (first conjunct, with `continuation_join`), and that line classifies like `l` — same statement, same
+expression tree, same error text (second conjunct, with `parseExpr_gap`).  Hypothesis `hsh`: the statement pattern
+captures the same groups around the blank run; it is a theorem for assignments (`continuation_break_irrelevant_assign`)
+and a decidable fact for a given line otherwise. -/
+theorem continuation_break_irrelevant (i ix : Nat) (p q ws ws1 tr ind : Chars) (rest : List Chars) (e e' qe : Chars)
+    (hp : rstripL p = p) (hq : stripL q = q) (hpc : isCommentL p = false) (hqc : isCommentL q = false)
+    (hqb : contBody? q = none) (h1 : allSpace ws1 = true) (h2 : allSpace tr = true) (h3 : allSpace ind = true)
+    (hws : allSpace ws = true) (hne : ws ≠ [])
+    (he : lineExpr (p ++ ws ++ q) = some e) (he' : lineExpr (p ++ ' ' :: q) = some e')
+    (hsh : shape (p ++ ' ' :: q) = (shape (p ++ ws ++ q)).withExpr e') (hg : Gap ws [' '] qe e e') :
+    loopL i ((p ++ ws1 ++ '\\' :: tr) :: (ind ++ q) :: rest) [] ix =
+      emit (i, p ++ ' ' :: q) (loopL (i + 2) rest [] i) ∧
+    EqUpToColumn (classifyL ExprParse.parseExpr (p ++ ' ' :: q)) (classifyL ExprParse.parseExpr (p ++ ws ++ q)) :=
+  ⟨continuation_break_line i ix p q ws1 tr ind rest hp hq hpc hqc hqb h1 h2 h3,
+    classifyL_gap ⟨blank_of_allSpace hws, blank_of_allSpace (by decide), Or.inl ⟨hne, by simp⟩⟩ he he' hsh hg⟩
+
+/-- an `if` header broken inside its condition: physical lines `if a &&` + backslash and `    b :`, logical line
+`if a && b :`, compared with the unbroken `if a &&  b :` (two blanks) -/
+example := continuation_break_irrelevant 3 0 "if a &&".toList "b :".toList "  ".toList "".toList "  ".toList "    ".toList []
+  "a &&  b ".toList "a && b ".toList "b ".toList
+  (by decide) (by decide) (by decide) (by decide) (by decide) (by decide) (by decide) (by decide) (by decide) (by simp)
+  (by decide) (by decide) (by decide)
+  (.cons 'a' rfl (.cons ' ' rfl (.cons '&' rfl (.cons '&' rfl .site))))
+
+theorem lstrip_append_self {e1 : Chars} (he1 : lstripL e1 = e1) (hne1 : e1 ≠ []) (x : Chars) :
+    lstripL (e1 ++ x) = e1 ++ x := by
+  obtain ⟨d, r, rfl, hd⟩ := lstrip_self_head he1 hne1
+  simp [lstripL, hd]
+
+/-- … for an **assignment** `name = e1 ws q` broken inside its expression: no hypothesis about the statement pattern. -/
+theorem continuation_break_irrelevant_assign (i ix : Nat) (pre e1 q ws ws1 tr ind name : Chars) (rest : List Chars)
+    (hp : rstripL (pre ++ e1) = pre ++ e1) (hq : stripL q = q) (hpc : isCommentL (pre ++ e1) = false)
+    (hqc : isCommentL q = false) (hqb : contBody? q = none) (h1 : allSpace ws1 = true) (h2 : allSpace tr = true)
+    (h3 : allSpace ind = true) (hws : allSpace ws = true) (hne : ws ≠ [])
+    (hsh : shape (pre ++ e1 ++ ws ++ q) = .assign name pre.length (e1 ++ ws ++ q))
+    (he1 : lstripL e1 = e1) (hne1 : e1 ≠ []) (hg : Gap ws [' '] q (e1 ++ ws ++ q) (e1 ++ ' ' :: q)) :
+    loopL i ((pre ++ e1 ++ ws1 ++ '\\' :: tr) :: (ind ++ q) :: rest) [] ix =
+      emit (i, pre ++ e1 ++ ' ' :: q) (loopL (i + 2) rest [] i) ∧
+    EqUpToColumn (classifyL ExprParse.parseExpr (pre ++ e1 ++ ' ' :: q))
+      (classifyL ExprParse.parseExpr (pre ++ e1 ++ ws ++ q)) := by
+  have hrep := (shape_assign_replace hsh (by rw [List.append_assoc]; exact lstrip_append_self he1 hne1 _)
+    (e1 ++ ' ' :: q) (lstrip_append_self he1 hne1 _) (by simp [hne1])).2
+  have htake : (pre ++ e1 ++ ws ++ q).take pre.length = pre := by
+    rw [List.append_assoc, List.append_assoc]; exact List.take_left
+  rw [htake] at hrep
+  have hl' : pre ++ e1 ++ ' ' :: q = pre ++ (e1 ++ ' ' :: q) := by simp
+  refine continuation_break_irrelevant i ix (pre ++ e1) q ws ws1 tr ind rest (e1 ++ ws ++ q) (e1 ++ ' ' :: q) q
+    hp hq hpc hqc hqb h1 h2 h3 hws hne ?_ ?_ ?_ hg
+  · unfold lineExpr; rw [hsh]
+  · unfold lineExpr; rw [hl', hrep]
+  · rw [hl', hrep, hsh]; rfl
+
+
+/-- `  x = ff(1,` + backslash / `\t\t'a \' b') + 2`: the break is in front of a string literal with an escaped quote; the
+site is found by `topLevelAt`, every other hypothesis is decided -/
+example := continuation_break_irrelevant_assign 0 0 "  x = ".toList "ff(1,".toList "'a \\' b') + 2".toList "   ".toList
+  " ".toList "\t".toList "\t\t".toList "x".toList ["y = 1".toList]
+  (by decide) (by decide) (by decide) (by decide) (by decide) (by decide) (by decide) (by decide) (by decide) (by simp)
+  (by decide) (by decide) (by simp)
+  (gap_of_topLevelAt _ _ _ 30 5 "ff(1,   'a \\' b') + 2".toList "ff(1,".toList (by kernel_rfl) rfl rfl)
 
 end C10
